@@ -325,3 +325,38 @@ Definition nested_flex_op (pv : option N) (t : ty) (a : N) (op : fop) (bs : byte
       (take p bs ++ fst r ++ drop (p + n) bs, snd r)
   | None => (bs, OBad)
   end.
+
+(* ---------- an item of a FlexVec that is itself a FlexVec, mutated through iter_mut().nth(i) ----------
+   Source anchors: containers/src/flex.rs iter_mut (FlexMutIter::next: the item gets the payload between its own
+   slot and the next one; the last item gets everything up to the end of the vector's data), then the FlexVec
+   operation on that item.  [flex_edit_flex] is kept apart from [fop] (an operation of the outer vector that is
+   an operation of one of its items, one level of nesting); the outcome is that of the inner operation. *)
+Definition flex_edit_flex (pv : option N) (t : ty) (a : N) (i : N) (op : fop) (bs : bytes) : bytes * oout :=
+  match t with
+  | TFlex (TFlex it il) l =>
+      let et := TFlex it il in
+      let os := flex_offset_size et l in
+      let al := align (TFlex et l) in
+      let n := floor_mul (blen bs) al in
+      let data := take n bs in
+      let tail := drop n bs in
+      match flex_chain l os al data with
+      | Ok (items, _) =>
+          match nth_error items (N.to_nat i) with
+          | Some (pos, plen) =>
+              let r := flex_op pv et (a + pos + os) op (take plen (drop (pos + os) data)) in
+              (take (pos + os) data ++ fst r ++ drop (pos + os + plen) data ++ tail, snd r)
+          | None => (bs, OPanic)
+          end
+      | _ => (bs, OPanic)
+      end
+  | _ => (bs, OBad)
+  end.
+
+Definition nested_flex_edit_flex (pv : option N) (t : ty) (a : N) (i : N) (op : fop) (bs : bytes) : bytes * oout :=
+  match tail_container t bs with
+  | Some (p, n, ct) =>
+      let r := flex_edit_flex pv ct (a + p) i op (take n (drop p bs)) in
+      (take p bs ++ fst r ++ drop (p + n) bs, snd r)
+  | None => (bs, OBad)
+  end.
